@@ -103,6 +103,25 @@ Theorem all_frames_any_order_emit_partial :
 Proof. exact @all_frames_any_order_emit. Qed.
 Print Assumptions all_frames_any_order_emit_partial.
 
+(** The complete behaviour of one slot epoch on ANY schedule of the frames of an honestly
+    fragmented multi-frame packet -- reordering, duplication and missing frames included:
+    first occurrences are accepted ([Ok None]), exactly the frame that completes the set emits
+    the packet byte-identical, repeated frames are rejected as duplicates and change nothing,
+    and after the emission everything is rejected until the slot is initialised again; so
+    within an epoch the packet is emitted exactly once iff all its frames arrive, and never
+    otherwise.  (Across epochs: known finding C17-dup-reemit.) *)
+Theorem slot_epoch_any_schedule :
+  forall (B : Type) (mtu so : N) (data : list B) frames nxt (sched : list nat)
+         (q : queue B) f0 d,
+    fragmenter_send mtu so data = Ok (frames, nxt) ->
+    (2 <= length frames)%nat ->
+    (forall j, In j sched -> (j < length frames)%nat) ->
+    length (q_buf q) = N.to_nat MAX_PACKET_SIZE -> h_so (f_hdr f0) = so ->
+    feed (queue_init q f0) (map (fun j => nth j frames d) sched)
+    = spec_feed so (length frames) data [] false sched.
+Proof. exact @Live.slot_epoch_any_schedule. Qed.
+Print Assumptions slot_epoch_any_schedule.
+
 (** non-vacuity: a three-frame packet delivered last-frame-first is emitted, intact *)
 Example reorder_emits :
   let d1 := repeat 1 256 in let d2 := repeat 2 256 in let d3 := repeat 3 10 in
